@@ -87,6 +87,22 @@ def stat_lists(draw, cout):
           "var": col(VAR, 0.0, 8.0)}
 
 
+_COLS = {"gamma": (GAMMA, -4.0, 4.0), "beta": (BETA, -4.0, 4.0),
+         "mean": (MEAN, -50.0, 50.0), "var": (VAR, 0.0, 8.0)}
+
+
+def stat_col(draw, what, cout):
+  """One BN statistic vector (same value classes as stat_lists)."""
+  st = _st()
+  table, lo, hi = _COLS[what]
+  return draw(st.lists(
+      st.one_of(st.sampled_from(table),
+                st.floats(min_value=lo, max_value=hi, width=32,
+                          allow_nan=False).map(
+                              lambda v: 0.0 if abs(v) < 1e-6 else v)),
+      min_size=cout, max_size=cout))
+
+
 def draw_geom(draw, cls, h, w, cin, force_same=False, big=False):
   """Kernel/stride/dilation/padding by construction (never rejected)."""
   st = _st()
@@ -349,13 +365,118 @@ def model_case_strategy(kind, tier):
   return s()
 
 
-def mixed_case_strategy(tier):
-  """70% layer cases, 15% unfold models, 15% fold/quantize models."""
+MUTABLE = ["mean", "var", "gamma", "beta", "kernel", "bias"]
+
+
+def history_case_strategy(tier):
+  """One folded layer in a one-layer functional model + a list of steps run
+  on that SAME instance.  Observation steps: call, gfw (get_folded_weights),
+  unfold (unfold_model), save_qweights (model_save_quantized_weights);
+  mutation steps: set_weights (all parameters incl. BN statistics, iteration
+  unchanged), assign (one variable).  The oracle adds call+gfw+unfold at the
+  end."""
   st = _st()
-  kinds = ["layer"] * 14 + ["unfold"] * 3 + ["quantize"] * 3
-  return st.sampled_from(kinds).flatmap(
-      lambda k: layer_case_strategy(tier) if k == "layer" else
-      model_case_strategy(k, tier))
+
+  @st.composite
+  def s(draw):
+    cls = draw(st.sampled_from(["conv", "dw"]))
+    h = draw(st.integers(2, 6))
+    w = draw(st.integers(2, 6))
+    cin = draw(st.integers(1, 3))
+    g = draw_geom(draw, cls, h, w, cin)
+    node = {"name": "f1", "op": "f" + cls, "inputs": ["in"], "geom": g,
+            "act": draw(st.sampled_from([None, None, "relu"]))}
+    node.update(layer_params(draw, cls, cin, g))
+    cout = cout_of(cls, cin, g["out"])
+    nsteps = draw(st.integers(2, 6 if tier == "quick" else 10))
+    steps = []
+    for _ in range(nsteps):
+      op = draw(st.sampled_from(["gfw", "unfold", "call", "set_weights",
+                                 "assign", "assign", "set_weights", "gfw",
+                                 "save_qweights"]))
+      if op == "set_weights":
+        steps.append({"op": op, "wseed": draw(st.integers(0, 2 ** 20)),
+                      "kscale": draw(st.sampled_from([0.05, 0.5, 2.0])),
+                      "bn": stat_lists(draw, cout)})
+      elif op == "assign":
+        what = draw(st.sampled_from(MUTABLE))
+        stp = {"op": op, "what": what}
+        if what in _COLS:
+          stp["vals"] = stat_col(draw, what, cout)
+        else:
+          stp["seed"] = draw(st.integers(0, 2 ** 20))
+        steps.append(stp)
+      else:
+        steps.append({"op": op})
+    return {"kind": "history", "input": [h, w, cin],
+            "n": draw(st.integers(1, 2)),
+            "xseed": draw(st.integers(0, 2 ** 20)),
+            "xscale": draw(st.sampled_from([1.0, 8.0])),
+            "nodes": [node], "outputs": ["f1"], "steps": steps}
+  return s()
+
+
+def fixed_history_cases():
+  """Deterministic histories, two per class (quantized / float): query and
+  unfold, load a second parameter set with the same iteration, re-calibrate
+  BN statistics in place, assign every other variable, each followed by
+  observations."""
+  out = []
+  idx = 0
+  for cls in ("conv", "dw"):
+    for kqn, bqn, mode in (("fixed4", "fixed8", MODES[0]),
+                           ("none", "none", MODES[1])):
+      outc = 3 if cls == "conv" else 2
+      cin = 2
+      cout = cout_of(cls, cin, outc)
+      rot = lambda t, o: [t[(o + i) % len(t)] for i in range(cout)]
+      node = {"name": "f1", "op": "f" + cls, "inputs": ["in"],
+              "geom": {"kh": 2, "kw": 2, "sh": 1, "sw": 1, "dh": 1, "dw": 1,
+                       "pad": "same", "out": outc},
+              "act": None, "mode": mode, "use_bias": True, "center": True,
+              "scale": True, "eps": 1e-3, "efd": None, "kq": KQ[kqn],
+              "bq": BQ[bqn],
+              "bn": {"gamma": rot(GAMMA, 5), "beta": rot(BETA, 1),
+                     "mean": rot(MEAN, 1), "var": rot(VAR, 3)},
+              "wseed": 50 + idx, "kscale": 0.5}
+      steps = [
+          {"op": "gfw"}, {"op": "call"}, {"op": "unfold"},
+          {"op": "set_weights", "wseed": 70 + idx, "kscale": 0.5,
+           "bn": {"gamma": rot(GAMMA, 2), "beta": rot(BETA, 3),
+                  "mean": rot(MEAN, 2), "var": rot(VAR, 4)}},
+          {"op": "gfw"}, {"op": "call"}, {"op": "unfold"},
+          {"op": "assign", "what": "mean", "vals": rot(MEAN, 3)},
+          {"op": "assign", "what": "var", "vals": rot(VAR, 1)},
+          {"op": "gfw"},
+          {"op": "assign", "what": "gamma", "vals": rot(GAMMA, 0)},
+          {"op": "unfold"},
+          {"op": "assign", "what": "kernel", "seed": 90 + idx},
+          {"op": "save_qweights"}, {"op": "gfw"},
+          {"op": "assign", "what": "beta", "vals": rot(BETA, 2)},
+          {"op": "gfw"},
+          {"op": "assign", "what": "bias", "seed": 91 + idx},
+      ]
+      out.append({"kind": "history", "input": [4, 4, cin], "n": 2,
+                  "xseed": 21 + idx, "xscale": 1.0, "nodes": [node],
+                  "outputs": ["f1"], "steps": steps})
+      idx += 1
+  return out
+
+
+def mixed_case_strategy(tier):
+  """57% layer cases, 14% each unfold models, fold/quantize models and
+  histories on one folded model instance."""
+  st = _st()
+  kinds = (["layer"] * 12 + ["unfold"] * 3 + ["quantize"] * 3 +
+           ["history"] * 3)
+
+  def pick(k):
+    if k == "layer":
+      return layer_case_strategy(tier)
+    if k == "history":
+      return history_case_strategy(tier)
+    return model_case_strategy(k, tier)
+  return st.sampled_from(kinds).flatmap(pick)
 
 
 def fixed_model_cases():
